@@ -1,16 +1,204 @@
 pub mod public_memory {
 use vstd::prelude::*;
+use vstd::arithmetic::div_mod::*;
 use crate::prelude::*;
 use crate::hashes::*;
 use crate::hoist::*;
 use crate::lemmas::*;
 use crate::swiftness_air::{
+    consts::{FELT_0, FELT_1, FELT_2},
     dynamic::DynamicParams,
-    types::{ContinuousPageHeader, Page, SegmentInfo},
+    types::{ContinuousPageHeader, Page, SegmentInfo, AddrValue, page_product},
 };
 verus! {
 broadcast use crate::prelude::group_felt;
 //@hexconst crates/air/src/public_memory.rs MAX_LOG_N_STEPS,MAX_RANGE_CHECK,MAX_ADDRESS,INITIAL_PC
 //@verbatim crates/air/src/public_memory.rs struct PublicInput
+
+// ---------------------------------------------------------------------------------------------
+// SPEC (property C13): the sequence that is hashed into the transcript seed
+/// pedersen chain over the main page: h_0 = 0, h_{i+1} = pedersen(pedersen(h_i, address_i), value_i)
+pub open spec fn page_chain(cells: Seq<AddrValue>, n: nat) -> nat decreases n {
+    if n == 0 { 0 } else { pedersen(pedersen(page_chain(cells, (n - 1) as nat), cells[n - 1].address@), cells[n - 1].value@) }
+}
+pub open spec fn main_page_hash_spec(cells: Seq<AddrValue>) -> nat { pedersen(page_chain(cells, cells.len()), fmul(2, cells.len() as nat % P)) }
+pub open spec fn segments_flat(s: Seq<SegmentInfo>) -> Seq<nat> decreases s.len() {
+    if s.len() == 0 { Seq::<nat>::empty() } else { segments_flat(s.drop_last()) + seq![s.last().begin_addr@, s.last().stop_ptr@] }
+}
+pub open spec fn headers_flat(s: Seq<ContinuousPageHeader>) -> Seq<nat> decreases s.len() {
+    if s.len() == 0 { Seq::<nat>::empty() } else { headers_flat(s.drop_last()) + seq![s.last().start_address@, s.last().size@, s.last().hash@] }
+}
+/// dynamic parameters in field order (see dynamic.rs; the conversion itself is assumed in this unit: A-iter)
+pub uninterp spec fn dynamic_params_seq(dp: &DynamicParams) -> Seq<nat>;
+pub open spec fn dyn_part(pi: &PublicInput) -> Seq<nat> {
+    match pi.dynamic_params { Some(dp) => dynamic_params_seq(&dp), None => Seq::<nat>::empty() }
+}
+//@iffeature stone5
+pub open spec fn hash_head(pi: &PublicInput, nvf: nat) -> Seq<nat> { seq![pi.log_n_steps@, pi.range_check_min@, pi.range_check_max@, pi.layout@] }
+//@iffeature stone6
+pub open spec fn hash_head(pi: &PublicInput, nvf: nat) -> Seq<nat> { seq![nvf, pi.log_n_steps@, pi.range_check_min@, pi.range_check_max@, pi.layout@] }
+pub open spec fn hash_data_spec(pi: &PublicInput, nvf: nat) -> Seq<nat> {
+    hash_head(pi, nvf) + dyn_part(pi) + segments_flat(pi.segments@)
+        + seq![pi.padding_addr@, pi.padding_value@, (pi.continuous_page_headers@.len() + 1) as nat % P, pi.main_page.0@.len() as nat % P, main_page_hash_spec(pi.main_page.0@)]
+        + headers_flat(pi.continuous_page_headers@)
+}
+/// the transcript seed
+pub open spec fn public_input_hash(pi: &PublicInput, nvf: nat) -> nat { poseidon_many(hash_data_spec(pi, nvf)) }
+
+// ---- hoisted iterator statements of get_hash (ASSUMED std semantics, A-iter) ----------------------
+#[verifier::external_body]
+fn hoisted_extend_dynamic_params(hash_data: &mut Vec<Felt>, dynamic_params: &DynamicParams)
+    ensures fv(final(hash_data)@) == fv(old(hash_data)@) + dynamic_params_seq(dynamic_params),
+{ unimplemented!() }
+#[verifier::external_body]
+fn hoisted_extend_segments(hash_data: &mut Vec<Felt>, segments: &Vec<SegmentInfo>)
+    ensures fv(final(hash_data)@) == fv(old(hash_data)@) + segments_flat(segments@),
+{ unimplemented!() }
+#[verifier::external_body]
+fn hoisted_extend_headers(hash_data: &mut Vec<Felt>, headers: &Vec<ContinuousPageHeader>)
+    ensures fv(final(hash_data)@) == fv(old(hash_data)@) + headers_flat(headers@),
+{ unimplemented!() }
+
+/// SPEC (C15)
+pub open spec fn headers_product(h: Seq<ContinuousPageHeader>, n: nat) -> nat decreases n {
+    if n == 0 { 1 } else { fmul(headers_product(h, (n - 1) as nat), h[n - 1].prod@) }
+}
+pub open spec fn headers_total(h: Seq<ContinuousPageHeader>, n: nat) -> nat decreases n {
+    if n == 0 { 0 } else { fadd(headers_total(h, (n - 1) as nat), h[n - 1].size@) }
+}
+/// z^size / ( prod over all public cells * padding^(size - total) )
+pub open spec fn memory_ratio_spec(pi: &PublicInput, z: nat, alpha: nat, size: nat) -> nat {
+    let pages = fmul(page_product(pi.main_page.0@, z, alpha, pi.main_page.0@.len()), headers_product(pi.continuous_page_headers@, pi.continuous_page_headers@.len()));
+    let total = fadd(pi.main_page.0@.len() as nat % P, headers_total(pi.continuous_page_headers@, pi.continuous_page_headers@.len()));
+    let padded = fsub(z, fadd(pi.padding_addr@, fmul(alpha, pi.padding_value@)));
+    fdiv(fdiv(pow_mod(z, size), pages), pow_mod(padded, fsub(size, total)))
+}
+
+impl PublicInput {
+//@repo crates/air/src/public_memory.rs fn PublicInput::get_public_memory_product_ratio props=C15
+    pub fn get_public_memory_product_ratio(
+        &self,
+        z: Felt,
+        alpha: Felt,
+        public_memory_column_size: Felt,
+    ) -> (r: Felt)
+        requires
+            fadd(self.main_page.0@.len() as nat % P, headers_total(self.continuous_page_headers@, self.continuous_page_headers@.len())) <= public_memory_column_size@, // [C18:public-memory-fits-the-column-else-assert-panics]
+            fmul(page_product(self.main_page.0@, z@, alpha@, self.main_page.0@.len()), headers_product(self.continuous_page_headers@, self.continuous_page_headers@.len())) != 0, // [C18:pages-product-nonzero-else-division-panics]
+            pow_mod(fsub(z@, fadd(self.padding_addr@, fmul(alpha@, self.padding_value@))), fsub(public_memory_column_size@, fadd(self.main_page.0@.len() as nat % P, headers_total(self.continuous_page_headers@, self.continuous_page_headers@.len())))) != 0, // [C18:padding-power-nonzero-else-division-panics]
+        ensures
+            r@ == memory_ratio_spec(self, z@, alpha@, public_memory_column_size@), // [C15:memory-ratio-is-z^size-over-pages-product-and-padding-power]
+    {
+        let (pages_product, total_length) = self.get_public_memory_product(z, alpha);
+
+        // Pad and divide
+        let numerator = z.pow_felt(&public_memory_column_size);
+        let padded = z - (self.padding_addr + alpha * self.padding_value);
+
+        assert!(total_length <= public_memory_column_size);
+        let denominator_pad = padded.pow_felt(&(public_memory_column_size - total_length));
+
+        numerator
+            .field_div(&NonZeroFelt::from_felt_unchecked(pages_product))
+            .field_div(&NonZeroFelt::from_felt_unchecked(denominator_pad))
+    }
+//@end
+//@repo crates/air/src/public_memory.rs fn PublicInput::get_public_memory_product props=C15
+    pub fn get_public_memory_product(&self, z: Felt, alpha: Felt) -> (r: (Felt, Felt))
+        ensures
+            r.0@ == fmul(page_product(self.main_page.0@, z@, alpha@, self.main_page.0@.len()), headers_product(self.continuous_page_headers@, self.continuous_page_headers@.len())), // [C15:memory-product-is-main-page-product-times-page-products]
+            r.1@ == fadd(self.main_page.0@.len() as nat % P, headers_total(self.continuous_page_headers@, self.continuous_page_headers@.len())), // [C15:memory-total-length]
+    {
+        let main_page_prod = self.main_page.get_product(z, alpha);
+
+        let (continuous_pages_prod, continuous_pages_total_length) =
+            get_continuous_pages_product(&self.continuous_page_headers);
+
+        let prod = main_page_prod * continuous_pages_prod;
+        let total_length = Felt::from(self.main_page.len()) + continuous_pages_total_length;
+
+        proof { lemma_pow2_251_lt_p(); assert(pow2(64) == 0x10000000000000000nat) by(compute_only); lemma_small_mod(self.main_page.0@.len() as nat, P); }
+        (prod, total_length)
+    }
+//@end
+//@repo crates/air/src/public_memory.rs fn PublicInput::get_hash props=C13 rules=H_hash_dynamic_params,H_hash_segments,H_hash_headers
+    pub fn get_hash(&self, n_verifier_friendly_commitment_layers: Felt) -> (r: Felt)
+        requires
+            self.continuous_page_headers@.len() < usize::MAX, // [C18:header-count+1-fits-usize]
+        ensures
+            r@ == public_input_hash(self, n_verifier_friendly_commitment_layers@), // [C13:seed-is-poseidon-of-all-listed-fields-in-order]
+    {
+        let mut main_page_hash = FELT_0;
+        for memory in /*+*/it: /*-*/self.main_page.iter()
+            invariant main_page_hash@ == page_chain(self.main_page.0@, it.index@ as nat),
+        {
+            assert(*memory == self.main_page.0@[it.index@]);
+            main_page_hash = pedersen_hash(&main_page_hash, &memory.address);
+            main_page_hash = pedersen_hash(&main_page_hash, &memory.value);
+        }
+        main_page_hash =
+            pedersen_hash(&main_page_hash, &(FELT_2 * Felt::from(self.main_page.len())));
+        proof {
+            lemma_pow2_251_lt_p(); assert(pow2(64) == 0x10000000000000000nat) by(compute_only);
+            lemma_small_mod(self.main_page.0@.len() as nat, P);
+            lemma_small_mod((self.continuous_page_headers@.len() + 1) as nat, P);
+        }
+
+        let mut hash_data = {
+            {
+                vec![self.log_n_steps, self.range_check_min, self.range_check_max, self.layout]
+            }
+        };
+        proof { assert(fv(hash_data@) =~= hash_head(self, n_verifier_friendly_commitment_layers@)); }
+
+        if let Some(dynamic_params) = &self.dynamic_params {
+            hoisted_extend_dynamic_params(&mut hash_data, dynamic_params);
+        }
+        proof { assert(fv(hash_data@) =~= hash_head(self, n_verifier_friendly_commitment_layers@) + dyn_part(self)); }
+
+        // Segments.
+        hoisted_extend_segments(&mut hash_data, &self.segments);
+
+        hash_data.push(self.padding_addr);
+        hash_data.push(self.padding_value);
+        hash_data.push(Felt::from(self.continuous_page_headers.len() + 1));
+
+        // Main page.
+        hash_data.push(Felt::from(self.main_page.len()));
+        hash_data.push(main_page_hash);
+        proof {
+            assert(fv(hash_data@) =~= hash_head(self, n_verifier_friendly_commitment_layers@) + dyn_part(self) + segments_flat(self.segments@)
+                + seq![self.padding_addr@, self.padding_value@, (self.continuous_page_headers@.len() + 1) as nat % P, self.main_page.0@.len() as nat % P, main_page_hash_spec(self.main_page.0@)]);
+        }
+
+        // Add the rest of the pages.
+        hoisted_extend_headers(&mut hash_data, &self.continuous_page_headers);
+
+        poseidon_hash_many(&hash_data)
+    }
+//@end
+}
+
+//@repo crates/air/src/public_memory.rs fn get_continuous_pages_product props=C15
+fn get_continuous_pages_product(page_headers: &[ContinuousPageHeader]) -> (r: (Felt, Felt))
+    ensures
+        r.0@ == headers_product(page_headers@, page_headers@.len()), // [C15:continuous-pages-product-is-the-product-of-header-prods]
+        r.1@ == headers_total(page_headers@, page_headers@.len()),   // [C15:continuous-pages-total-size]
+{
+    let mut res = FELT_1;
+    let mut total_length = FELT_0;
+    for header in /*+*/it: /*-*/page_headers
+        invariant
+            res@ == headers_product(page_headers@, it.index@ as nat),
+            total_length@ == headers_total(page_headers@, it.index@ as nat),
+    {
+        assert(*header == page_headers@[it.index@]);
+        res *= header.prod;
+        total_length += header.size
+    }
+
+    (res, total_length)
+}
+//@end
 } // verus!
 } // mod public_memory
